@@ -9,7 +9,7 @@ import (
 func init() { register("C26", propC26) }
 
 func propC26(c *Check) {
-	c.Explain = "Decides the structure that makes work crediting exactly-once: (1) WORKPROPOSE, WORKVOTE and WORKCHECKPOINT keys are written only inside WriteRoundWork's single snapshotsDB.Update closure (so credit and checkpoint cannot be separated by a crash), and the checkpoint write dominates every credit write; (2) the replay gate 'off > round => return' and the gap panic 'round > off+1' precede every write; (3) on the replay branch (round == off) the set of snapshots to credit ('fresh') receives a snapshot only through the !osm[ss.Hash] edge (already-seen snapshots are never credited again), and a snapshot missing from the resubmission panics; on the new-round branch fresh is the submitted list; (4) the credit map is built by ranging over fresh, adds one per listed signer per snapshot, the proposer's count must equal len(fresh), the proposer is excluded from signing credit and receives the proposal credit wm[nodeId]; counters are read-modify-written through the same txn; (5) the checkpoint records the round and all submitted snapshot hashes."
+	c.Explain = "Decides the structure that makes work crediting exactly-once: (1) WORKPROPOSE, WORKVOTE and WORKCHECKPOINT keys are written only inside WriteRoundWork's single snapshotsDB.Update closure (so credit and checkpoint cannot be separated by a crash), and the checkpoint write dominates every credit write; (2) the replay gate 'off > round => return' and the gap panic 'round > off+1' precede every write; (3) on the replay branch (round == off) the set of snapshots to credit ('fresh') receives a snapshot only through the !osm[ss.Hash] edge (already-seen snapshots are never credited again), and a snapshot missing from the resubmission panics; on the new-round branch fresh is the submitted list; (4) the credit map is built by ranging over fresh, adds one per listed signer per snapshot, the proposer's count must equal len(fresh), the proposer is excluded from signing credit and receives the proposal credit wm[nodeId]; counters are read-modify-written through the same txn; (5) the checkpoint records the round and all submitted snapshot hashes. The replay subset is built in its own storage (never a re-slice of the submitted list), and each iteration of the missing-snapshot scan panics unless the recorded hash is present in the resubmission."
 	c.NotCov = "arithmetic of the counters; the contents of signer lists (one credit per *listed* signer); day assignment."
 	c.Floor(16)
 	w := c.W
